@@ -291,6 +291,42 @@ func C02bits(p *load.Program, run *report.Run) {
 									return true
 								})
 							}
+							// SetBit(result, i, 1) on the arm of the comparison chain taken for L1 (label.Equal(wire.L1)); the
+							// rejection of a label that is neither is C16's rule
+							if v, ok := constOf(rpkg, t.Args[2]); ok && pol == "" {
+								ast.Inspect(body, func(q ast.Node) bool {
+									ifs, ok := q.(*ast.IfStmt)
+									if !ok {
+										return true
+									}
+									direct := false
+									for _, st := range ifs.Body.List {
+										if es, ok := st.(*ast.ExprStmt); ok && ast.Unparen(es.X) == ast.Expr(t) {
+											direct = true
+										}
+									}
+									call, isCall := ast.Unparen(ifs.Cond).(*ast.CallExpr)
+									if !direct || !isCall || len(call.Args) != 1 {
+										return true
+									}
+									if sel, ok := ast.Unparen(call.Fun).(*ast.SelectorExpr); !ok || sel.Sel.Name != "Equal" {
+										return true
+									}
+									which := ""
+									for _, e := range []ast.Expr{call.Args[0], call.Fun.(*ast.SelectorExpr).X} {
+										if sel, ok := ast.Unparen(e).(*ast.SelectorExpr); ok && (sel.Sel.Name == "L0" || sel.Sel.Name == "L1") {
+											which = sel.Sel.Name
+										}
+									}
+									switch {
+									case which == "L1" && v == 1, which == "L0" && v == 0:
+										pol = "by-comparison"
+									case which != "":
+										pol = "neg"
+									}
+									return true
+								})
+							}
 							// the bit is the first result of a function that resolves the label against the wire and
 							// that the three-case evaluation accepts (L0 -> 0, L1 -> 1)
 							if call, ok := ast.Unparen(unwrapConv(t.Args[2])).(*ast.CallExpr); ok && pol == "" {
